@@ -217,6 +217,10 @@ pub fn loc_matches(a: &[u8], b: &[u8], ra: bool, rb: bool) -> String {
             if x.matches(&x, ra, rb) != x.matches(&x.clone(), ra, rb) || y.matches(&y, ra, rb) != y.matches(&y.clone(), ra, rb) {
                 return "LAWFAIL matches() depends on object identity".into();
             }
+            // extensions other than -x- never matter - not -u- / -t- content, and not an entry in the public `other` map
+            let mut xo = x.clone();
+            xo.extensions.other.insert('a', vec!["foo".parse::<tinystr::TinyStr8>().unwrap()]);
+            if xo.matches(&y, ra, rb) != m || y.matches(&xo, rb, ra) != m { return "LAWFAIL matches() depends on an entry of ExtensionsMap::other".into(); }
             // a LanguageIdentifier can be matched against a Locale's id directly
             let m2 = x.id.matches(&y, ra, rb);
             format!("{} {}", m, m2)
@@ -408,9 +412,11 @@ fn value_ops(out: &mut Out, s: &[u8]) {
     out.case("loc_built", &[s], || loc_built(s));
 }
 
-const HIST_ARGS: [&str; 26] = [
+const HIST_ARGS: [&str; 36] = [
     "foo", "bar", "Foo", "abcdefgh", "abcdefghi", "ab", "", "true", "ca", "CA", "nu", "h0", "H0", "k1", "1a", "a1",
     "buddhist", "hybrid", "a", "b", "b*", "x", "latn", "12345", "zz9", "TRUE",
+    // legacy CLDR boolean values and the boolean collation keys, special words, a digit-digit key
+    "yes", "no", "YES", "kn", "kk", "va", "posix", "root", "und", "11",
 ];
 const HIST_CODES: &[u8] = b"LSRVvhkKrcaAdeGgfFmnpPqQMN";
 
